@@ -135,3 +135,21 @@ Proof.
   - repeat constructor; unfold blen; simpl; discriminate.
   - simpl. repeat constructor.
 Qed.
+
+(* ---- the client theorems instantiated with the real directory-entry codec (Model/Wire.v):
+        entries are Dir field lists, enc = enc_dir, dec = DecodeDir; the Section hypotheses above are
+        discharged by the codec round-trip lemmas (Proofs/ReaddirWire.v) ---- *)
+From P9 Require Import Model.WireTypes Model.Wire Proofs.ReaddirWire.
+
+Theorem C17_client_wire : forall script ds iounit fuel,
+  lists_script script ds -> Forall wire_wf ds -> fits enc_dir ds iounit -> (length ds < fuel)%nat ->
+  cl_all enc_dir wire_dec iounit fuel new_cdir (new_readdir script) = Ok ds.
+Proof. exact client_wire. Qed.
+Print Assumptions C17_client_wire.
+
+Theorem C17_client_msize_wire : forall script ds msize fuel,
+  lists_script script ds -> Forall wire_wf ds ->
+  Forall (fun d => blen (enc_dir d) + 11 <= msize) ds -> (length ds < fuel)%nat ->
+  cl_all enc_dir wire_dec (msize - 11) fuel new_cdir (new_readdir script) = Ok ds.
+Proof. exact client_msize_wire. Qed.
+Print Assumptions C17_client_msize_wire.
